@@ -142,6 +142,14 @@ func isTypeRendering(s string) bool { return reTypeRendering.MatchString(s) }
 func goldenJudge(spec *GoldenSpec, c *goldenCase, got string) string {
 	et, ed, _ := goldenSplit(c.src, c.expected, c.name)
 	gt, gd, _ := goldenSplit(c.src, got, c.name)
+	if strings.Contains(spec.Mode, "+") {
+		for _, m := range strings.Split(spec.Mode, "+") {
+			if why := goldenJudge(&GoldenSpec{Mode: m}, c, got); why != "" {
+				return why
+			}
+		}
+		return ""
+	}
 	switch spec.Mode {
 	case "types":
 		var rows []int
@@ -223,7 +231,7 @@ func RunGolden(prog *ssa.Program, job *Job, nw int, solverBin []string) (*JobRes
 		wg.Add(1)
 		go func() {
 			defer wg.Done()
-			w, err := newWorker(prog, "ti", solverBin, configRoot(""))
+			w, err := newWorker(prog, "ti", solverBin, configRoot(job.Config))
 			if err != nil {
 				mu.Lock()
 				firstErr = err
@@ -269,7 +277,7 @@ func RunGolden(prog *ssa.Program, job *Job, nw int, solverBin []string) (*JobRes
 						res.EndKinds["completed"]--
 						res.Violations = append(res.Violations, Violation{ID: spec.ID, Kind: "assert", Class: spec.Label + "/" + strings.TrimSuffix(strings.TrimPrefix(c.name, "./"), ".rb"),
 							Msg: why, Model: map[string]uint64{}, Job: job.Name,
-							Witness: map[string]string{"golden-file": c.name, "src": c.src, "expected-output": c.expected, "engine-output": got, "golden-mode": spec.Mode}})
+							Witness: map[string]string{"golden-file": c.name, "src": c.src, "expected-output": c.expected, "engine-output": got, "golden-mode": spec.Mode, "golden-config": job.Config}})
 					}
 				case strings.HasPrefix(status, "gopanic") || strings.HasPrefix(status, "budget"):
 					// crashes and hangs belong to C01 / C02; here they only mean "no verdict on this example"
@@ -309,7 +317,11 @@ func replayGolden(n *Native, v *Violation) ReplayResult {
 	spec := &GoldenSpec{Mode: v.Witness["golden-mode"]}
 	var out string
 	for try := 0; try < 4; try++ {
-		out, _, _ = n.RunTi(map[string]string{strings.TrimPrefix(name, "./"): c.src}, []string{name}, "")
+		cfg := ""
+		if v.Witness["golden-config"] != "" {
+			cfg = filepath.Join(configRoot(v.Witness["golden-config"]), ".ti-config")
+		}
+		out, _, _ = n.RunTi(map[string]string{strings.TrimPrefix(name, "./"): c.src}, []string{name}, cfg)
 		if !isTimeoutOut(out) {
 			break
 		}
@@ -326,15 +338,14 @@ func goldenJobs(id, filter, what string, modes ...string) []*Job {
 	if filter != "" {
 		re = regexp.MustCompile(filter)
 	}
-	var js []*Job
+	mode := strings.Join(modes, "+")
+	var judged []string
 	for _, m := range modes {
-		label := map[string]string{"types": "example-program-type-differs-from-the-maintainers-expectation", "diag-miss": "example-program-expected-diagnostic-missing",
-			"diag-extra": "example-program-unexpected-diagnostic", "diag-both": "example-program-diagnostic-rows-differ-from-the-maintainers-expectation"}[m]
-		js = append(js, &Job{Name: "examples-" + m, Pkg: "ti", Entry: "VerifRunSrc", Replay: "golden", Asserts: []string{id + "-golden-" + m},
-			Golden: &GoldenSpec{Mode: m, Filter: re, ID: id + "-golden-" + m, Label: id + "/" + label},
-			Bound:  "AUXILIARY, CONCRETE (not the deciding method): the example programs of /repo/test (plain `ti ./x.rb` invocations, 568 of 585) " + what + ", run concretely through the interpreter; judged against the expected output recorded in test/<name>_test.go: " + map[string]string{"types": "the type printed for every dbtp row", "diag-miss": "every row with an expected diagnostic has one", "diag-extra": "no row without an expected diagnostic has one", "diag-both": "the set of rows carrying a diagnostic"}[m]})
+		judged = append(judged, map[string]string{"types": "the type printed for every dbtp row", "diag-miss": "every row with an expected diagnostic has one", "diag-extra": "no row without an expected diagnostic has one", "diag-both": "the set of rows carrying a diagnostic"}[m])
 	}
-	return js
+	return []*Job{{Name: "examples", Pkg: "ti", Entry: "VerifRunSrc", Replay: "golden", Asserts: []string{id + "-examples"},
+		Golden: &GoldenSpec{Mode: mode, Filter: re, ID: id + "-examples", Label: id + "/example-program-differs-from-the-maintainers-expectation"},
+		Bound:  "AUXILIARY, CONCRETE (not the deciding method): the example programs of /repo/test (plain `ti ./x.rb` invocations, 568 of 585) " + what + ", run concretely through the interpreter; judged against the expected output recorded in test/<name>_test.go: " + strings.Join(judged, "; ")}}
 }
 
 // goldenByProp: which properties get auxiliary example-program jobs, on which examples.
@@ -380,3 +391,28 @@ func corpusSelection() []goldenCase {
 }
 
 var corpusSeed int64 = 1
+
+// goldenJobsFor: the auxiliary jobs of a property (C19: the examples under the shipped
+// configuration loaded in reverse file order must still meet the recorded expectations).
+func goldenJobsFor(id string) []*Job {
+	if id == "C19" {
+		js := goldenJobs("C19", "", "(all of them), analysed under the shipped configuration with every file renamed so that the load order is reversed", "types", "diag-both")
+		for _, j := range js {
+			j.Config = "rev"
+			j.Name += "-reversed-config"
+		}
+		return js
+	}
+	if id == "C20" {
+		js := goldenJobs("C20", "", "(all of them), analysed under the shipped configuration plus two files declaring classes no example mentions (methods named like first / push / to_s / nil? / each / + / puts / methods / sleep_ms / length, one class extending Array)", "types", "diag-both")
+		for _, j := range js {
+			j.Config = "extra"
+			j.Name += "-extra-classes"
+		}
+		return js
+	}
+	if g, ok := goldenByProp[id]; ok {
+		return goldenJobs(id, g.filter, g.what, g.modes...)
+	}
+	return nil
+}
